@@ -46,7 +46,7 @@ func init() {
 	h.Register(&h.Check{
 		ID:          "C06",
 		Rule:        "all fragment sequences up to k over a 40-fragment SML/hostile vocabulary; 10 lexer-state prefixes x every byte string up to 2 (thorough 3 for 4 contexts) x 3 suffixes; every magnitude in every numeric slot; nesting depths; every Unicode space and every byte value at the first position of each lexer state; printed messages concatenated k times; each parsed by the real parser in an rlimited worker (death/hang = violation after 5 confirmations); oracle: normal return, errors => no messages, diagnostics formatted and positioned inside the input, accepted messages re-print/re-parse to themselves; non-trivial = distinct input text parsed",
-		WatchdogSec: 120,
+		WatchdogSec: 600,
 		Build: func(tier string, seed int64) []h.Space {
 			var sp []h.Space
 			k := 4
